@@ -89,6 +89,22 @@ func c11Alphabet() map[string]func(i int) c11Elem {
 		"line20k": func(i int) c11Elem {
 			return c11Elem{Name: "line20k", Msg: c11Base(i, []WHdr{c11Line(20 * 1024)}, []byte("after long line"))}
 		},
+		// the same long lines ended by a bare LF
+		"lf-line4096": func(i int) c11Elem {
+			return c11Elem{Name: "lf-line4096", Msg: c11Base(i, []WHdr{c11Line(4096)}, []byte("b")), LF: true}
+		},
+		"lf-line4097": func(i int) c11Elem {
+			return c11Elem{Name: "lf-line4097", Msg: c11Base(i, []WHdr{c11Line(4097)}, []byte("b")), LF: true}
+		},
+		"lf-line4098": func(i int) c11Elem {
+			return c11Elem{Name: "lf-line4098", Msg: c11Base(i, []WHdr{c11Line(4098)}, []byte("b")), LF: true}
+		},
+		"lf-line8192": func(i int) c11Elem {
+			return c11Elem{Name: "lf-line8192", Msg: c11Base(i, []WHdr{c11Line(8190), c11Line(8192), c11Line(8194)}, nil), LF: true}
+		},
+		"lf-line20k": func(i int) c11Elem {
+			return c11Elem{Name: "lf-line20k", Msg: c11Base(i, []WHdr{c11Line(20 * 1024)}, []byte("after long line")), LF: true}
+		},
 		"body60k":  func(i int) c11Elem { return c11Elem{Name: "body60k", Msg: c11Base(i, nil, big)} },
 		"body4096": func(i int) c11Elem { return c11Elem{Name: "body4096", Msg: c11Base(i, nil, big[:4096])} },
 	}
@@ -272,7 +288,7 @@ func c11E2E(elems []c11Elem, stream []byte, cuts []int) (string, string) {
 
 func c11Run(c *Ctx) {
 	short := []string{"nobody", "small", "tiny", "siplike", "crlfbody", "lf", "keepalive", "ka3-tiny"}
-	long := []string{"line4094", "line4095", "line4096", "line4097", "line4098", "line8192", "line20k", "body60k", "body4096"}
+	long := []string{"line4094", "line4095", "line4096", "line4097", "line4098", "line8192", "line20k", "body60k", "body4096", "lf-line4096", "lf-line4097", "lf-line4098", "lf-line8192", "lf-line20k"}
 	var streams [][]string
 	for _, a := range short {
 		streams = append(streams, []string{a})
@@ -412,7 +428,7 @@ func c11Run(c *Ctx) {
 
 func init() {
 	addCheck(&Check{ID: "C11", Level: "exploration",
-		Rule:   "streams of 1-3 (thorough 1-5, plus a fixed 8-message stream) messages over an alphabet of 17 shapes (no body, small body, SIP-like body, body starting with CRLF, LF-only line ends, 0-3 CRLF keep-alives, header lines of 4094..4098 / 8190..8194 / 20480 bytes, bodies of 4096 B and 60 KiB) through the REAL TCPServerTransport.receiveMessage on a simulated connection; segmentations: none, 1-byte segments, ALL single cuts and ALL pairs of cuts for streams up to 700 B (thorough 1500 B), for longer streams all single cuts (or all within +-3 of every line end, body boundary and 4096-multiple) and all pairs of those marks; plus the single cuts end-to-end through a full proxy to a TCP backend; non-trivial = at least one cut",
+		Rule:   "streams of 1-3 (thorough 1-5, plus a fixed 8-message stream) messages over an alphabet of 22 shapes (no body, small body, SIP-like body, body starting with CRLF, LF-only line ends, 0-3 CRLF keep-alives, header lines of 4094..4098 / 8190..8194 / 20480 bytes ended by CRLF and by a bare LF, bodies of 4096 B and 60 KiB) through the REAL TCPServerTransport.receiveMessage on a simulated connection; segmentations: none, 1-byte segments, ALL single cuts and ALL pairs of cuts for streams up to 700 B (thorough 1500 B), for longer streams all single cuts (or all within +-3 of every line end, body boundary and 4096-multiple) and all pairs of those marks; plus the single cuts end-to-end through a full proxy to a TCP backend; non-trivial = at least one cut",
 		Assume: []string{"a short read equals an additional cut, so cuts subsume short reads; coalescing of queued segments is the no-cut case"},
 		Run:    c11Run,
 		Replay: func(c *Ctx, raw json.RawMessage) string {
